@@ -332,6 +332,7 @@ structure Session where
   paths : List Path           -- config["paths"]
   taskPaths : List Path       -- task.path of every collected PTaskWithPath
   nodePaths : List Path       -- node.path of every PPathNode among depends_on / produces
+  provisionalPaths : List Path := []   -- what the provisional nodes (DirectoryNode) among them collect
   userExclude : List Pattern  -- config["exclude"] before pytask_parse_config (CLI / configuration file)
   directories : Bool
   git : Git
@@ -368,7 +369,7 @@ def gitKnown (s : Session) : List Path :=
 
 /-- `_collect_all_paths_known_to_pytask(session)`. -/
 def knownPaths (s : Session) : List Path :=
-  let knownFiles := s.taskPaths ++ s.nodePaths
+  let knownFiles := s.taskPaths ++ s.nodePaths ++ (if Generated.cleanKnowsProvisional then s.provisionalPaths else [])
   let knownDirs := knownFiles.flatMap parents
   knownFiles ++ knownDirs ++ s.config.toList ++ [s.root] ++ gitKnown s
 
